@@ -101,17 +101,22 @@ class Sim:
         key = (op["obj"], op["attr"])
         new = None
         if op.get("reuse"):
-            new = self.replaced.get(key)
+            # only if that object still holds the value this op wants (an intermediate equal-value assignment is
+            # skipped by the library and replaces nothing)
+            held = self.replaced.get(key)
+            if held is not None and held[1] == op["value"]:
+                new = held[0]
         if new is None:
             new = self._new_for(op)
         old = o.__dict__.get(op["attr"])
+        spec_before = copy.deepcopy(self.spec["objs"].get(op["obj"], {}).get("attrs", {}).get(op["attr"]))
         try:
             setattr(o, op["attr"], new)
         finally:
             if (o.__dict__.get(op["attr"]) is not old and op["value"][0] in ("q", "s", "tz", "h", "e", "none")
                     and not op.get("revert")):
                 # (a revert that fails must not make its own failed value the "previous" one)
-                self.replaced[key] = old
+                self.replaced[key] = (old, spec_before)
         self._mirror(op)
 
     def op_group(self, op):
